@@ -24,6 +24,7 @@ SEPARATORS = set("&=?;")
 
 
 def check(ctx):
+    methods_table_complete(ctx)
     percent_coding_agrees(ctx)
     ctx.rule("T7-quote", "no quote/quote_plus with a structural separator marked safe; values quoted before joining")
     ctx.rule("T7-query", "updateQargsQuery / Requester.build encode per value; parseQuery/unquoteQuery decode per value")
@@ -269,3 +270,20 @@ def percent_coding_agrees(ctx):
                           "the peer percent-codes with utf-8: a path or value decoded as latin-1 arrives as mojibake "
                           "(`/héllo` -> `/hÃ©llo`) although every byte was transported intact")
     ctx.floor("T7-codec:calls", k, 6)
+
+
+HTTP_METHODS = {"GET", "HEAD", "PUT", "PATCH", "POST", "DELETE", "OPTIONS", "TRACE", "CONNECT"}
+
+
+def methods_table_complete(ctx):
+    """the client emits any method it is given; the server accepts only what httping.METHODS lists (parseRequestLine raises
+    BadMethod otherwise): the table must list every method of the property"""
+    from ..rules import module_assign
+    ctx.rule("T6-methods", "httping.METHODS lists GET HEAD PUT PATCH POST DELETE OPTIONS TRACE CONNECT")
+    hm = ctx.repo.mod("aio.http.httping")
+    ctx.use(hm)
+    v = module_assign(hm, "METHODS")
+    got = {e.value for e in getattr(v, "elts", []) if isinstance(e, ast.Constant) and isinstance(e.value, str)} if v is not None else set()
+    ctx.check(HTTP_METHODS <= got, "T6-methods", v if v is not None else hm.tree, "METHODS = %s" % sorted(got),
+              "a request with a method missing from the table is rejected by the server's request-line parser (BadMethod): the WSGI "
+              "application is never called and the client gets no response - missing: %s" % sorted(HTTP_METHODS - got))
